@@ -65,9 +65,9 @@ theorem unlink_linked {s : State} {e : Nat} (hs : Struct s) (he : e ∈ s.order.
 
 theorem struct_after_unlink {s : State} {e : Nat} {l : KList} (hs : Struct s) (he : e ∈ s.order.items)
     (hl : s.locals (s.ents e).key = some l) (x' : Entry) (hk : x'.key = (s.ents e).key)
-    (hg : x'.gRemoved = true) (hlr : x'.lRemoved = true) (c : Nat → Conn) (h : List Nat) :
+    (hg : x'.gRemoved = true) (hlr : x'.lRemoved = true) (c : Nat → Conn) (h : List Nat) (hd : Nat → Bool) :
     Struct { s with ents := upd s.ents e x', locals := upd s.locals (s.ents e).key (some (l.remove e)),
-                    order := s.order.remove e, conns := c, handouts := h } := by
+                    order := s.order.remove e, conns := c, handouts := h, held := hd } := by
   obtain ⟨_, _, _, l0, hl0, hel⟩ := hs.gl e he
   rw [hl] at hl0; cases hl0
   constructor
@@ -191,11 +191,36 @@ structure Hand (s : State) : Prop where
   nodup : s.handouts.Nodup
   handed : ∀ e, e ∈ s.handouts → e < s.next ∧ (s.ents e).handed = true
 
+/-- the pool may still close the connection of this entry: it is linked (an eviction or `Close`
+    would close it) or its timer fired and the callback has not closed it yet -/
+def Live (s : State) (e : Nat) : Prop := e ∈ s.order.items ∨ (s.ents e).exp = .fired
+
+/-- connection-level ownership, for callers that only put connections they hold -/
+structure ConnInv (s : State) : Prop where
+  heldFree : ∀ e, e < s.next → s.held (s.ents e).val = true → ¬ Live s e
+  unique : ∀ e1 e2, e1 < s.next → e2 < s.next → (s.ents e1).val = (s.ents e2).val →
+    Live s e1 → Live s e2 → e1 = e2
+
+theorem connInv_mono {s s' : State} (h : ConnInv s) (hn : s'.next = s.next)
+    (hval : ∀ e, e < s.next → (s'.ents e).val = (s.ents e).val)
+    (hlive : ∀ e, e < s.next → Live s' e → Live s e)
+    (hheld : ∀ v, s'.held v = true → s.held v = true) : ConnInv s' := by
+  constructor
+  · intro e hlt hh hl
+    rw [hn] at hlt
+    rw [hval e hlt] at hh
+    exact h.heldFree e hlt (hheld _ hh) (hlive e hlt hl)
+  · intro e1 e2 h1 h2 hv l1 l2
+    rw [hn] at h1 h2
+    rw [hval e1 h1, hval e2 h2] at hv
+    exact h.unique e1 e2 h1 h2 hv (hlive e1 h1 l1) (hlive e2 h2 l2)
+
 structure Inv (cfg : Cfg) (s : State) : Prop where
   struct : Struct s
   owned : ∀ e, e < s.next → Owned s e
   bounded : Bounded cfg s
   hand : Hand s
+  conn : s.proper = true → ConnInv s
 
 theorem Inv.linked_not_handed {cfg : Cfg} {s : State} (hi : Inv cfg s) {e : Nat} (he : e ∈ s.order.items) :
     (s.ents e).handed = false ∧ e ∉ s.handouts := by
@@ -213,14 +238,16 @@ theorem inv_unlink {cfg : Cfg} {s : State} {e : Nat} {l : KList} (hi : Inv cfg s
     (hk : x'.key = (s.ents e).key) (hg : x'.gRemoved = true) (hlr : x'.lRemoved = true)
     (hc : ∀ v, (s.conns v).closed = true → (c' v).closed = true)
     (hown : OwnedW False x' (c' x'.val).closed)
-    (hh : h' = s.handouts ∨ (h' = s.handouts ++ [e] ∧ x'.handed = true)) :
+    (hh : h' = s.handouts ∨ (h' = s.handouts ++ [e] ∧ x'.handed = true))
+    (hd' : Nat → Bool) (hval : x'.val = (s.ents e).val) (hfire : x'.exp = .fired → (s.ents e).exp = .fired)
+    (hhd : hd' = s.held ∨ (hd' = upd s.held x'.val true ∧ x'.exp ≠ .fired)) :
     Inv cfg { s with ents := upd s.ents e x', locals := upd s.locals (s.ents e).key (some (l.remove e)),
-                     order := s.order.remove e, conns := c', handouts := h' } := by
+                     order := s.order.remove e, conns := c', handouts := h', held := hd' } := by
   have hlt := (hi.struct.gl e he).1
   obtain ⟨_, _, _, l0, hl0, hel⟩ := hi.struct.gl e he
   rw [hl] at hl0; cases hl0
   constructor
-  · exact struct_after_unlink hi.struct he hl x' hk hg hlr c' h'
+  · exact struct_after_unlink hi.struct he hl x' hk hg hlr c' h' hd'
   · intro e' hlt'
     by_cases hee : e' = e
     · subst hee
@@ -265,6 +292,52 @@ theorem inv_unlink {cfg : Cfg} {s : State} {e : Nat} {l : KList} (hi : Inv cfg s
           have hin' : e' ∈ s.handouts ++ [e] := hin
           simp [hee] at hin'
           exact hi.hand.handed e' hin'
+  · intro hp
+    have K := hi.conn hp
+    -- liveness only shrinks
+    have hlive : ∀ e', e' < s.next →
+        Live { s with ents := upd s.ents e x', locals := upd s.locals (s.ents e).key (some (l.remove e)),
+                      order := s.order.remove e, conns := c', handouts := h', held := hd' } e' → Live s e' := by
+      intro e' _ hl'
+      by_cases hee : e' = e
+      · subst hee; exact .inl he
+      · unfold Live at hl' ⊢
+        simp only [upd_other _ _ hee, mem_remove] at hl'
+        rcases hl' with hl' | hl'
+        · exact .inl hl'.1
+        · exact .inr hl'
+    have hvals : ∀ e', e' < s.next → (upd s.ents e x' e').val = (s.ents e').val := by
+      intro e' _
+      by_cases hee : e' = e
+      · subst hee; simp [hval]
+      · simp [upd_other _ _ hee]
+    rcases hhd with hhd | ⟨hhd, hnf⟩
+    · subst hhd
+      exact connInv_mono K rfl hvals hlive (fun _ h => h)
+    · subst hhd
+      constructor
+      · intro e' hlt' hh' hl'
+        have hl0 := hlive e' hlt' hl'
+        have hv' := hvals e' hlt'
+        simp only at hh' hv'
+        rw [hv'] at hh'
+        by_cases hvv : (s.ents e').val = x'.val
+        · -- same connection as the entry just handed out: it would be a second live entry
+          have : e' = e := K.unique e' e hlt' hlt (by rw [hvv, hval]) hl0 (.inl he)
+          subst this
+          unfold Live at hl'
+          simp only [upd_same, mem_remove] at hl'
+          rcases hl' with hl' | hl'
+          · exact hl'.2 rfl
+          · exact hnf hl'
+        · rw [upd_other _ _ hvv] at hh'
+          exact K.heldFree e' hlt' hh' hl0
+      · intro e1 e2 h1 h2 hv l1 l2
+        have v1 := hvals e1 h1
+        have v2 := hvals e2 h2
+        simp only at hv v1 v2
+        rw [v1, v2] at hv
+        exact K.unique e1 e2 h1 h2 hv (hlive e1 h1 l1) (hlive e2 h2 l2)
 
 theorem struct_congr {s s' : State} (hs : Struct s) (hn : s'.next = s.next) (ho : s'.order = s.order)
     (hl : s'.locals = s.locals)
@@ -295,7 +368,9 @@ theorem inv_local {cfg : Cfg} {s : State} (hi : Inv cfg s) (e : Nat) (x' : Entry
     (hk : x'.key = (s.ents e).key) (hg : x'.gRemoved = (s.ents e).gRemoved)
     (hl : x'.lRemoved = (s.ents e).lRemoved) (hhd : (s.ents e).handed = true → x'.handed = true)
     (hc : ∀ v, (s.conns v).closed = true → (c' v).closed = true)
-    (hown : e < s.next → OwnedW (e ∈ s.order.items) x' (c' x'.val).closed) :
+    (hown : e < s.next → OwnedW (e ∈ s.order.items) x' (c' x'.val).closed)
+    (hval : x'.val = (s.ents e).val)
+    (hfire : x'.exp = .fired → (s.ents e).exp = .fired ∨ e ∈ s.order.items) :
     Inv cfg { s with ents := upd s.ents e x', conns := c' } := by
   constructor
   · refine struct_congr hi.struct rfl rfl rfl ?_
@@ -322,17 +397,38 @@ theorem inv_local {cfg : Cfg} {s : State} (hi : Inv cfg s) (e : Nat) (x' : Entry
       by_cases hee : e' = e
       · subst hee; simp [hhd h2]
       · simp [upd_other _ _ hee, h2]
+  · intro hp
+    refine connInv_mono (hi.conn hp) rfl ?_ ?_ (fun _ h => h)
+    · intro e' _
+      by_cases hee : e' = e
+      · subst hee; simp [hval]
+      · simp [upd_other _ _ hee]
+    · intro e' _ hl'
+      unfold Live at hl' ⊢
+      by_cases hee : e' = e
+      · subst hee
+        simp only [upd_same] at hl'
+        rcases hl' with hl' | hl'
+        · exact .inl hl'
+        · rcases hfire hl' with h | h
+          · exact .inr h
+          · exact .inl h
+      · simpa [upd_other _ _ hee] using hl'
 
-/-- Action: only the connections change (closed only ever becomes true). -/
-theorem inv_conns {cfg : Cfg} {s : State} (hi : Inv cfg s) (c' : Nat → Conn)
-    (hc : ∀ v, (s.conns v).closed = true → (c' v).closed = true) :
-    Inv cfg { s with conns := c' } := by
+/-- Action: only the connections and the caller-side ghosts change (closed only ever becomes true,
+    the callers hold no more than before). -/
+theorem inv_conns {cfg : Cfg} {s : State} (hi : Inv cfg s) (c' : Nat → Conn) (hd' : Nat → Bool) (pr' : Bool)
+    (hc : ∀ v, (s.conns v).closed = true → (c' v).closed = true)
+    (hhd : ∀ v, hd' v = true → s.held v = true) (hpr : pr' = true → s.proper = true) :
+    Inv cfg { s with conns := c', held := hd', proper := pr' } := by
   constructor
   · exact struct_congr hi.struct rfl rfl rfl (fun _ => ⟨rfl, rfl, rfl⟩)
   · intro e' hlt
     exact owned_frame (hi.owned e' hlt) rfl Iff.rfl hc
   · exact ⟨hi.bounded.cap, hi.bounded.kcap, hi.bounded.neg⟩
   · exact ⟨hi.hand.nodup, hi.hand.handed⟩
+  · intro hp
+    exact connInv_mono (hi.conn (hpr hp)) rfl (fun _ _ => rfl) (fun _ _ h => h) hhd
 
 /-- Action: an empty per-key list is dropped from the map. -/
 theorem inv_delete {cfg : Cfg} {s : State} (hi : Inv cfg s) {k : Nat} {l : KList} (hl : s.locals k = some l)
@@ -384,6 +480,8 @@ theorem inv_delete {cfg : Cfg} {s : State} (hi : Inv cfg s) {k : Nat} {l : KList
       · rfl
       · exact (hi.bounded.neg h).2 k'
   · exact ⟨hi.hand.nodup, hi.hand.handed⟩
+  · intro hp
+    exact connInv_mono (hi.conn hp) rfl (fun _ _ => rfl) (fun _ _ h => h) (fun _ h => h)
 
 /-- Action: an empty per-key list is registered (first half of `Put` when the key is new). -/
 theorem inv_register {cfg : Cfg} {s : State} (hi : Inv cfg s) {k : Nat} (hl : s.locals k = none)
@@ -425,6 +523,8 @@ theorem inv_register {cfg : Cfg} {s : State} (hi : Inv cfg s) {k : Nat} (hl : s.
     · cases h'; show (0 : Int) ≤ _; omega
     · exact hi.bounded.kcap h _ _ h'
   · exact ⟨hi.hand.nodup, hi.hand.handed⟩
+  · intro hp
+    exact connInv_mono (hi.conn hp) rfl (fun _ _ => rfl) (fun _ _ h => h) (fun _ h => h)
 
 theorem Struct.lt_of_mem {s : State} (hs : Struct s) {e : Nat} (h : e ∈ s.order.items) : e < s.next :=
   (hs.gl e h).1
@@ -440,10 +540,11 @@ theorem inv_insert {cfg : Cfg} {s : State} (hi : Inv cfg s) {k : Nat} {l : KList
     (hkcap : cfg.keyCapacity > 0 → l.count < cfg.keyCapacity)
     (x : Entry) (hx : x.key = k) (hg : x.gRemoved = false) (hlr : x.lRemoved = false)
     (hexp : x.exp = .none ∨ x.exp = .armed) (hh : x.handed = false) (hp : x.poolClosed = false)
-    (hd : x.dropped = false) :
+    (hd : x.dropped = false) (hheld : s.proper = true → s.held x.val = true) :
     Inv cfg { s with ents := upd s.ents s.next x, next := s.next + 1,
                      locals := upd s.locals k (some (l.append s.next)),
-                     order := s.order.append s.next } := by
+                     order := s.order.append s.next,
+                     held := upd s.held x.val false } := by
   have hs := hi.struct
   have hnG : s.next ∉ s.order.items := fun h => Nat.lt_irrefl _ (hs.lt_of_mem h)
   have hnL : s.next ∉ l.items := fun h => Nat.lt_irrefl _ (hs.lt_of_mem_local hl h)
@@ -551,6 +652,48 @@ theorem inv_insert {cfg : Cfg} {s : State} (hi : Inv cfg s) {k : Nat} {l : KList
       have hne : e' ≠ s.next := Nat.ne_of_lt h1
       simp only [upd_other _ _ hne]
       exact ⟨Nat.lt_succ_of_lt h1, h2⟩
+  · intro hpr
+    have K := hi.conn hpr
+    have hfree := hheld hpr
+    -- for old entries nothing changed
+    have hold : ∀ e', e' < s.next →
+        (Live { s with ents := upd s.ents s.next x, next := s.next + 1,
+                       locals := upd s.locals k (some (l.append s.next)),
+                       order := s.order.append s.next, held := upd s.held x.val false } e' ↔ Live s e') ∧
+        (upd s.ents s.next x e').val = (s.ents e').val := by
+      intro e' hlt'
+      have hne : e' ≠ s.next := Nat.ne_of_lt hlt'
+      unfold Live
+      simp [upd_other _ _ hne, KList.append, hne]
+    have hnew : ∀ e', e' < s.next + 1 → ¬ e' < s.next → e' = s.next := by intro e' h1 h2; omega
+    constructor
+    · intro e' hlt' hh' hl'
+      simp only at hlt' hh'
+      by_cases hlt0 : e' < s.next
+      · obtain ⟨h1, h2⟩ := hold e' hlt0
+        rw [h2] at hh'
+        by_cases hvv : (s.ents e').val = x.val
+        · rw [hvv, upd_same] at hh'; cases hh'
+        · rw [upd_other _ _ hvv] at hh'
+          exact K.heldFree e' hlt0 hh' (h1.mp hl')
+      · have := hnew e' hlt' hlt0
+        subst this
+        simp only [upd_same] at hh'
+        cases hh'
+    · intro e1 e2 h1 h2 hv l1 l2
+      simp only at h1 h2 hv
+      by_cases a1 : e1 < s.next <;> by_cases a2 : e2 < s.next
+      · rw [(hold e1 a1).2, (hold e2 a2).2] at hv
+        exact K.unique e1 e2 a1 a2 hv ((hold e1 a1).1.mp l1) ((hold e2 a2).1.mp l2)
+      · have := hnew e2 h2 a2
+        subst this
+        rw [(hold e1 a1).2, upd_same] at hv
+        exact absurd ((hold e1 a1).1.mp l1) (K.heldFree e1 a1 (by rw [hv]; exact hfree))
+      · have := hnew e1 h1 a1
+        subst this
+        rw [(hold e2 a2).2, upd_same] at hv
+        exact absurd ((hold e2 a2).1.mp l2) (K.heldFree e2 a2 (by rw [← hv]; exact hfree))
+      · rw [hnew e1 h1 a1, hnew e2 h2 a2]
 
 def closeEnt (x : Entry) : Entry :=
   match x.exp with
@@ -607,7 +750,9 @@ theorem inv_evict {cfg : Cfg} {s : State} {e : Nat} (hi : Inv cfg s) (he : e ∈
       Inv cfg (unlink (closeEntry s e) (s.ents e).key e) ∧
       (unlink (closeEntry s e) (s.ents e).key e).next = s.next ∧
       (unlink (closeEntry s e) (s.ents e).key e).order = s.order.remove e ∧
-      (unlink (closeEntry s e) (s.ents e).key e).locals = upd s.locals (s.ents e).key (some (l.remove e)) := by
+      (unlink (closeEntry s e) (s.ents e).key e).locals = upd s.locals (s.ents e).key (some (l.remove e)) ∧
+      (unlink (closeEntry s e) (s.ents e).key e).held = s.held ∧
+      (unlink (closeEntry s e) (s.ents e).key e).proper = s.proper := by
   obtain ⟨hlt, _, _, l, hl, hel⟩ := hi.struct.gl e he
   obtain ⟨c', heq, hc1, hc2⟩ := closeEntry_spec s e
   have hkey : (closeEnt (s.ents e)).key = (s.ents e).key := by unfold closeEnt; split <;> rfl
@@ -622,14 +767,19 @@ theorem inv_evict {cfg : Cfg} {s : State} {e : Nat} (hi : Inv cfg s) (he : e ∈
     have : s.locals (s.ents e).key = some l1 := hl1
     rw [hl] at this; cases this; rfl
   subst hl1'
-  refine ⟨l1, hl, hel, ?_, ?_, ?_, ?_⟩
+  have hfire : (closeEnt (s.ents e)).exp = .fired → (s.ents e).exp = .fired := by
+    unfold closeEnt; split <;> simp_all
+  refine ⟨l1, hl, hel, ?_, ?_, ?_, ?_, ?_, ?_⟩
   · rw [hun, heq]
     simp only [upd_upd_same, upd_same]
     have ho := hi.owned e hlt
     unfold Owned at ho
     have ho' : OwnedW True (s.ents e) (s.conns (s.ents e).val).closed := ownedW_mono ho (by simp [he]) id
-    exact inv_unlink hi he hl _ c' s.handouts hkey rfl rfl hc1
-      (by simp only [hval]; exact evict_owned ho' (hc1 _) hc2) (.inl rfl)
+    exact inv_unlink hi he hl { closeEnt (s.ents e) with lRemoved := true, gRemoved := true } c' s.handouts
+      hkey rfl rfl hc1 (by simp only [hval]; exact evict_owned ho' (hc1 _) hc2) (.inl rfl) s.held hval hfire
+      (.inl rfl)
+  · rw [hun, heq]
+  · rw [hun, heq]
   · rw [hun, heq]
   · rw [hun, heq]
   · rw [hun, heq]
@@ -645,7 +795,8 @@ theorem length_remove {l : KList} {e : Nat} (h : l.items.Nodup) (he : e ∈ l.it
 /-- first loop of `Put` -/
 theorem keyLoop_spec {cfg : Cfg} {k : Nat} (hcfg : cfg.keyCapacity ≥ 0) :
     ∀ (n : Nat) (s : State) (l : KList), Inv cfg s → s.locals k = some l → l.items.length < n →
-      ∃ s' l', keyLoop cfg k n s = (s', .ok) ∧ Inv cfg s' ∧ s'.locals k = some l' ∧ s'.next = s.next ∧
+      ∃ s' l', keyLoop cfg k n s = (s', .ok) ∧ Inv cfg s' ∧ s'.locals k = some l' ∧
+        (s'.next = s.next ∧ s'.held = s.held ∧ s'.proper = s.proper) ∧
         (cfg.keyCapacity > 0 → l'.count < cfg.keyCapacity) := by
   intro n
   induction n with
@@ -661,15 +812,15 @@ theorem keyLoop_spec {cfg : Cfg} {k : Nat} (hcfg : cfg.keyCapacity ≥ 0) :
       obtain ⟨e, hhead, hmem⟩ := head?_of_pos hpos
       simp only [hhead]
       obtain ⟨hkey, hord⟩ := hi.struct.lg k l hl e hmem
-      obtain ⟨l0, hl0, _, hinv, hnext, _, hloc⟩ := inv_evict hi hord
-      rw [hkey] at hl0 hinv hnext hloc
+      obtain ⟨l0, hl0, _, hinv, hnext, _, hloc, hheld, hprop⟩ := inv_evict hi hord
+      rw [hkey] at hl0 hinv hnext hloc hheld hprop
       rw [hl] at hl0; cases hl0
       have hl' : (unlink (closeEntry s e) k e).locals k = some (l.remove e) := by rw [hloc]; simp
       have hlen := length_remove (hi.struct.nodupL k l hl) hmem
       obtain ⟨s', l', h1, h2, h3, h4, h5⟩ := ih _ _ hinv hl' (by omega)
-      exact ⟨s', l', h1, h2, h3, by rw [h4, hnext], h5⟩
+      exact ⟨s', l', h1, h2, h3, ⟨by rw [h4.1, hnext], by rw [h4.2.1, hheld], by rw [h4.2.2, hprop]⟩, h5⟩
     · next hcond =>
-      refine ⟨s, l, rfl, hi, hl, rfl, ?_⟩
+      refine ⟨s, l, rfl, hi, hl, ⟨rfl, rfl, rfl⟩, ?_⟩
       intro hpos
       by_cases h0 : cfg.keyCapacity ≠ 0
       · have : ¬ (l.count ≥ cfg.keyCapacity) := fun h => hcond ⟨h0, h⟩
@@ -679,7 +830,8 @@ theorem keyLoop_spec {cfg : Cfg} {k : Nat} (hcfg : cfg.keyCapacity ≥ 0) :
 /-- second loop of `Put` -/
 theorem capLoop_spec {cfg : Cfg} {k : Nat} (hcfg : cfg.capacity ≥ 0) :
     ∀ (n : Nat) (s : State) (l : KList), Inv cfg s → s.locals k = some l → s.order.items.length < n →
-      ∃ s' l', capLoop cfg k n s = (s', .ok) ∧ Inv cfg s' ∧ s'.locals k = some l' ∧ s'.next = s.next ∧
+      ∃ s' l', capLoop cfg k n s = (s', .ok) ∧ Inv cfg s' ∧ s'.locals k = some l' ∧
+        (s'.next = s.next ∧ s'.held = s.held ∧ s'.proper = s.proper) ∧
         l'.count ≤ l.count ∧ (cfg.capacity > 0 → s'.order.count < cfg.capacity) := by
   intro n
   induction n with
@@ -693,7 +845,13 @@ theorem capLoop_spec {cfg : Cfg} {k : Nat} (hcfg : cfg.capacity ≥ 0) :
       have hpos : 0 < s.order.items.length := by omega
       obtain ⟨e, hhead, hmem⟩ := head?_of_pos hpos
       simp only [hhead]
-      obtain ⟨le, hle, hele, hinv, hnext, hord, hloc⟩ := inv_evict hi hmem
+      obtain ⟨le, hle, hele, hinv, hnext, hord, hloc, hheld, hprop⟩ := inv_evict hi hmem
+      have hfr : ∀ (t : State), (t.next = (unlink (closeEntry s e) (s.ents e).key e).next ∧
+          t.held = (unlink (closeEntry s e) (s.ents e).key e).held ∧
+          t.proper = (unlink (closeEntry s e) (s.ents e).key e).proper) →
+          (t.next = s.next ∧ t.held = s.held ∧ t.proper = s.proper) := by
+        intro t ht
+        exact ⟨by rw [ht.1, hnext], by rw [ht.2.1, hheld], by rw [ht.2.2, hprop]⟩
       have hl1 : (closeEntry s e).locals (s.ents e).key = some le := by
         obtain ⟨c', heq, _, _⟩ := closeEntry_spec s e
         rw [heq]; exact hle
@@ -711,7 +869,7 @@ theorem capLoop_spec {cfg : Cfg} {k : Nat} (hcfg : cfg.capacity ≥ 0) :
         have hl3 : (upd (unlink (closeEntry s e) (s.ents e).key e).locals (s.ents e).key none) k = some l := by
           rw [upd_other _ _ (Ne.symm hdel.2), hloc, upd_other _ _ (Ne.symm hdel.2)]; exact hl
         obtain ⟨s', l', h1, h2, h3, h4, h5, h6⟩ := ih _ l hinv3 hl3 hlen'
-        exact ⟨s', l', h1, h2, h3, by rw [h4]; exact hnext, h5, h6⟩
+        exact ⟨s', l', h1, h2, h3, hfr s' h4, h5, h6⟩
       · next hdel =>
         by_cases hkk : (s.ents e).key = k
         · have hll : le = l := by rw [hkk, hl] at hle; cases hle; rfl
@@ -719,15 +877,15 @@ theorem capLoop_spec {cfg : Cfg} {k : Nat} (hcfg : cfg.capacity ≥ 0) :
           have hl3 : (unlink (closeEntry s e) (s.ents e).key e).locals k = some (le.remove e) := by
             rw [← hkk]; exact hl2
           obtain ⟨s', l', h1, h2, h3, h4, h5, h6⟩ := ih _ _ hinv hl3 hlen'
-          refine ⟨s', l', h1, h2, h3, by rw [h4]; exact hnext, ?_, h6⟩
+          refine ⟨s', l', h1, h2, h3, hfr s' h4, ?_, h6⟩
           have : (le.remove e).count ≤ le.count := by simp only [KList.remove]; omega
           omega
         · have hl3 : (unlink (closeEntry s e) (s.ents e).key e).locals k = some l := by
             rw [hloc, upd_other _ _ (Ne.symm hkk)]; exact hl
           obtain ⟨s', l', h1, h2, h3, h4, h5, h6⟩ := ih _ _ hinv hl3 hlen'
-          exact ⟨s', l', h1, h2, h3, by rw [h4]; exact hnext, h5, h6⟩
+          exact ⟨s', l', h1, h2, h3, hfr s' h4, h5, h6⟩
     · next hcond =>
-      refine ⟨s, l, rfl, hi, hl, rfl, Int.le_refl _, ?_⟩
+      refine ⟨s, l, rfl, hi, hl, ⟨rfl, rfl, rfl⟩, Int.le_refl _, ?_⟩
       intro hpos
       by_cases h0 : cfg.capacity ≠ 0
       · have : ¬ (s.order.count ≥ cfg.capacity) := fun h => hcond ⟨h0, h⟩
@@ -735,7 +893,8 @@ theorem capLoop_spec {cfg : Cfg} {k : Nat} (hcfg : cfg.capacity ≥ 0) :
       · omega
 
 theorem put_tail {cfg : Cfg} {s0 : State} {l0 : KList} {k : Nat} (v : Nat) (hi0 : Inv cfg s0)
-    (hl0 : s0.locals k = some l0) (hneg : ¬ (cfg.capacity < 0 ∨ cfg.keyCapacity < 0)) :
+    (hl0 : s0.locals k = some l0) (hneg : ¬ (cfg.capacity < 0 ∨ cfg.keyCapacity < 0))
+    (hheld : s0.proper = true → s0.held v = true) :
     ∃ s', (match keyLoop cfg k (l0.items.length + 1) s0 with
             | (s1, .ok) =>
               (match capLoop cfg k (s1.order.items.length + 1) s1 with
@@ -744,37 +903,57 @@ theorem put_tail {cfg : Cfg} {s0 : State} {l0 : KList} {k : Nat} (v : Nat) (hi0 
             | r => r) = (s', .ok) ∧ Inv cfg s' := by
   have hk0 : cfg.keyCapacity ≥ 0 := by omega
   have hc0 : cfg.capacity ≥ 0 := by omega
-  obtain ⟨s1, l1, h1, hi1, hl1, _, hk1⟩ := keyLoop_spec hk0 (l0.items.length + 1) s0 l0 hi0 hl0 (by omega)
+  obtain ⟨s1, l1, h1, hi1, hl1, hf1, hk1⟩ := keyLoop_spec hk0 (l0.items.length + 1) s0 l0 hi0 hl0 (by omega)
   simp only [h1]
-  obtain ⟨s2, l2, h2, hi2, hl2, _, hle, hc2⟩ :=
+  obtain ⟨s2, l2, h2, hi2, hl2, hf2, hle, hc2⟩ :=
     capLoop_spec (k := k) hc0 (s1.order.items.length + 1) s1 l1 hi1 hl1 (by omega)
   simp only [h2]
   unfold insert
   simp only [hl2]
   refine ⟨_, rfl, ?_⟩
-  apply inv_insert hi2 hl2 hneg hc2 (fun h => by have := hk1 h; omega) _ rfl rfl rfl ?_ rfl rfl rfl
-  split <;> simp
+  refine inv_insert hi2 hl2 hneg hc2 (fun h => by have := hk1 h; omega)
+    { key := k, val := v, exp := if cfg.expiration then .armed else .none } rfl rfl rfl ?_ rfl rfl rfl ?_
+  · split <;> simp
+  · intro hp
+    show s2.held v = true
+    rw [hf2.2.1, hf1.2.1]
+    apply hheld
+    rw [← hf1.2.2, ← hf2.2.2]; exact hp
 
 theorem put_spec {cfg : Cfg} {s : State} (hi : Inv cfg s) (k v : Nat) :
     ∃ s', put cfg s k v = (s', .ok) ∧ Inv cfg s' := by
+  have hpr : (s.proper && s.held v) = true → s.proper = true := by
+    intro h; simp only [Bool.and_eq_true] at h; exact h.1
+  have hdown : ∀ v', upd s.held v false v' = true → s.held v' = true := by
+    intro v' h; simp only [upd_apply] at h; split at h
+    · cases h
+    · exact h
+  -- ghost: did the caller hold v?
+  have hiG : Inv cfg { s with proper := s.proper && s.held v } :=
+    inv_conns hi s.conns s.held (s.proper && s.held v) (fun _ h => h) (fun _ h => h) hpr
+  have hheldG : ({ s with proper := s.proper && s.held v } : State).proper = true →
+      ({ s with proper := s.proper && s.held v } : State).held v = true := by
+    intro h; simp only [Bool.and_eq_true] at h; exact h.2
   unfold put
+  dsimp only
   split
   · next hneg =>
     refine ⟨_, rfl, ?_⟩
     unfold poolCloseConn
-    apply inv_conns hi
+    dsimp only
+    apply inv_conns hi _ _ _ _ hdown hpr
     intro v' hv'
     simp only [upd_apply]; split <;> simp_all
   · next hneg =>
     split
-    · exact ⟨s, rfl, hi⟩
+    · exact ⟨_, rfl, inv_conns hi s.conns _ _ (fun _ h => h) hdown hpr⟩
     · cases hl : s.locals k with
       | none =>
         simp only [upd_same]
-        exact put_tail (l0 := {}) (k := k) v (inv_register hi hl hneg) (upd_same _ _ _) hneg
+        exact put_tail (l0 := {}) (k := k) v (inv_register hiG hl hneg) (upd_same _ _ _) hneg hheldG
       | some l =>
         simp only [hl]
-        exact put_tail v hi hl hneg
+        exact put_tail v hiG hl hneg hheldG
 
 /-- what one run of the loop of `Take` guarantees, relative to the state it starts in -/
 def TakeOk (s : State) (rest : List Nat) (r : State × Out) : Prop :=
@@ -836,13 +1015,15 @@ theorem takeLoop_spec {cfg : Cfg} {k : Nat} :
         fun e' h => mem_remove.mpr ⟨hsub' e' h, hne e' h⟩
       -- the state after unlinking e and replacing its record by x'
       have key : ∀ (x' : Entry), x'.key = (s.ents e).key → x'.gRemoved = true → x'.lRemoved = true →
-          OwnedW False x' (s.conns x'.val).closed →
+          OwnedW False x' (s.conns x'.val).closed → x'.val = (s.ents e).val →
+          (x'.exp = .fired → (s.ents e).exp = .fired) →
           let s' : State := { s with ents := upd s.ents e x', locals := upd s.locals k (some (l.remove e)),
                                      order := s.order.remove e }
           Inv cfg (takeLoop k rest s').1 ∧ TakeOk s (e :: rest) (takeLoop k rest s') := by
-        intro x' hk hg hlr hown s'
+        intro x' hk hg hlr hown hval hfire s'
         have hi' : Inv cfg s' := by
           have := inv_unlink hi hord (hkey ▸ hl) x' s.conns s.handouts hk hg hlr (fun _ h => h) hown (.inl rfl)
+            s.held hval hfire (.inl rfl)
           rw [hkey] at this; exact this
         obtain ⟨h1, h2⟩ := ih s' (l.remove e) hi' (by simp [s']) hnd.2 hsubr
         exact ⟨h1, takeOk_step h2 rfl rfl rfl (fun e' h => by simp [s', upd_other _ _ (hne e' h)])⟩
@@ -860,6 +1041,8 @@ theorem takeLoop_spec {cfg : Cfg} {k : Nat} :
           · rfl
           · unfold OwnedW CachedW HandedW PoolClosedW DroppedW CallbackW at *
             simp_all
+          · rfl
+          · simp_all
         · next hcl =>
           simp only [upd_upd_same]
           constructor
@@ -867,7 +1050,8 @@ theorem takeLoop_spec {cfg : Cfg} {k : Nat} :
               { s.ents e with lRemoved := true, gRemoved := true, handed := true } s.conns (s.handouts ++ [e])
               rfl rfl rfl (fun _ h => h)
               (by unfold OwnedW CachedW HandedW PoolClosedW DroppedW CallbackW at *; simp_all)
-              (.inr ⟨rfl, rfl⟩)
+              (.inr ⟨rfl, rfl⟩) (upd s.held (s.ents e).val true) rfl (fun h => h)
+              (.inr ⟨rfl, by simp [hexp]⟩)
             rw [hkey] at this; simpa [hexp] using this
           · refine ⟨rfl, rfl, ?_⟩
             simp only
@@ -884,6 +1068,8 @@ theorem takeLoop_spec {cfg : Cfg} {k : Nat} :
           · rfl
           · unfold OwnedW CachedW HandedW PoolClosedW DroppedW CallbackW at *
             simp_all
+          · rfl
+          · simp_all
         · next hcl =>
           simp only [upd_upd_same]
           constructor
@@ -891,7 +1077,8 @@ theorem takeLoop_spec {cfg : Cfg} {k : Nat} :
               { s.ents e with lRemoved := true, gRemoved := true, exp := .stopped, handed := true } s.conns
               (s.handouts ++ [e]) rfl rfl rfl (fun _ h => h)
               (by unfold OwnedW CachedW HandedW PoolClosedW DroppedW CallbackW at *; simp_all)
-              (.inr ⟨rfl, rfl⟩)
+              (.inr ⟨rfl, rfl⟩) (upd s.held (s.ents e).val true) rfl (by simp)
+              (.inr ⟨rfl, by simp⟩)
             rw [hkey] at this; simpa [hexp] using this
           · refine ⟨rfl, rfl, ?_⟩
             simp only
@@ -905,6 +1092,8 @@ theorem takeLoop_spec {cfg : Cfg} {k : Nat} :
         · rfl
         · unfold OwnedW CachedW HandedW PoolClosedW DroppedW CallbackW at *
           simp_all
+        · rfl
+        · simp_all
 
 theorem take_spec {cfg : Cfg} {s : State} (hi : Inv cfg s) (k : Nat) :
     Inv cfg (take s k).1 ∧
@@ -930,7 +1119,8 @@ theorem take_spec {cfg : Cfg} {s : State} (hi : Inv cfg s) (k : Nat) :
 
 /-- the loop of `Close` -/
 theorem closeAll_spec : ∀ (es : List Nat) (s : State), es.Nodup →
-    (closeAll es s).next = s.next ∧ (closeAll es s).handouts = s.handouts ∧
+    (closeAll es s).next = s.next ∧
+    ((closeAll es s).handouts = s.handouts ∧ (closeAll es s).held = s.held ∧ (closeAll es s).proper = s.proper) ∧
     (closeAll es s).order = s.order ∧ (closeAll es s).locals = s.locals ∧
     (∀ v, (s.conns v).closed = true → ((closeAll es s).conns v).closed = true) ∧
     (∀ e, e ∉ es → (closeAll es s).ents e = s.ents e) ∧
@@ -938,7 +1128,7 @@ theorem closeAll_spec : ∀ (es : List Nat) (s : State), es.Nodup →
       ((s.ents e).exp = .none ∨ (s.ents e).exp = .armed → ((closeAll es s).conns (s.ents e).val).closed = true)) := by
   intro es
   induction es with
-  | nil => intro s _; exact ⟨rfl, rfl, rfl, rfl, fun _ h => h, fun _ _ => rfl, fun _ h => by cases h⟩
+  | nil => intro s _; exact ⟨rfl, ⟨rfl, rfl, rfl⟩, rfl, rfl, fun _ h => h, fun _ _ => rfl, fun _ h => by cases h⟩
   | cons a rest ih =>
     intro s hnd
     rw [List.nodup_cons] at hnd
@@ -1000,10 +1190,10 @@ theorem inv_close {cfg : Cfg} {s : State} (hi : Inv cfg s) : Inv cfg (close s) :
     · intro _; exact ⟨rfl, fun _ => rfl⟩
   · constructor
     · show (closeAll s.order.items s).handouts.Nodup
-      rw [h2]; exact hi.hand.nodup
+      rw [h2.1]; exact hi.hand.nodup
     · intro e hin
       have hin' : e ∈ (closeAll s.order.items s).handouts := hin
-      rw [h2] at hin'
+      rw [h2.1] at hin'
       obtain ⟨k1, k2⟩ := hi.hand.handed e hin'
       refine ⟨by show e < (closeAll s.order.items s).next; rw [h1]; exact k1, ?_⟩
       show ((closeAll s.order.items s).ents e).handed = true
@@ -1011,6 +1201,28 @@ theorem inv_close {cfg : Cfg} {s : State} (hi : Inv cfg s) : Inv cfg (close s) :
         have := (hi.linked_not_handed h).1
         rw [k2] at this; cases this
       rw [h6 e hnl]; exact k2
+  · intro hp
+    have hp' : s.proper = true := by
+      have : (closeAll s.order.items s).proper = true := hp
+      rw [h2.2.2] at this; exact this
+    have K := hi.conn hp'
+    have hents : ∀ e, ((closeAll s.order.items s).ents e).val = (s.ents e).val ∧
+        (((closeAll s.order.items s).ents e).exp = .fired → (s.ents e).exp = .fired) := by
+      intro e
+      by_cases hin : e ∈ s.order.items
+      · rw [(h7 e hin).1]
+        unfold closeEnt
+        split <;> simp_all
+      · rw [h6 e hin]; exact ⟨rfl, fun h => h⟩
+    refine connInv_mono K h1 (fun e _ => (hents e).1) ?_ ?_
+    · intro e _ hl
+      unfold Live at hl ⊢
+      rcases hl with hl | hl
+      · cases hl
+      · exact .inr ((hents e).2 hl)
+    · intro v hv
+      have : (closeAll s.order.items s).held v = true := hv
+      rw [h2.2.1] at this; exact this
 
 theorem unlink_unlinked {s : State} (hs : Struct s) {e : Nat} (hlt : e < s.next) (hn : e ∉ s.order.items)
     (k : Nat) : unlink s k e = s := by
@@ -1033,6 +1245,7 @@ theorem inv_cbRemove {cfg : Cfg} {s : State} (hi : Inv cfg s) {e : Nat} (hlt : e
     have hA := inv_unlink hi hin hl { s.ents e with lRemoved := true, gRemoved := true, exp := .cbDone }
       s.conns s.handouts rfl rfl rfl (fun _ h => h)
       (by unfold OwnedW CachedW HandedW PoolClosedW DroppedW CallbackW at *; simp_all) (.inl rfl)
+      s.held rfl (by simp) (.inl rfl)
     simp only [hl, hun, upd_same] at hp
     split at hp
     · next h0 =>
@@ -1050,16 +1263,16 @@ theorem inv_cbRemove {cfg : Cfg} {s : State} (hi : Inv cfg s) {e : Nat} (hlt : e
     | none =>
       simp only [hl] at hp
       subst hp
-      exact inv_local hi e { s.ents e with exp := Exp.cbDone } s.conns rfl rfl rfl (fun h => h) (fun _ h => h) (fun _ => hown)
+      exact inv_local hi e { s.ents e with exp := Exp.cbDone } s.conns rfl rfl rfl (fun h => h) (fun _ h => h) (fun _ => hown) rfl (by simp)
     | some l =>
       simp only [unlink_unlinked hi.struct hlt hin, hl] at hp
       split at hp
       · next h0 =>
         subst hp
         have hD := inv_delete hi hl h0
-        exact inv_local hD e { s.ents e with exp := Exp.cbDone } s.conns rfl rfl rfl (fun h => h) (fun _ h => h) (fun _ => hown)
+        exact inv_local hD e { s.ents e with exp := Exp.cbDone } s.conns rfl rfl rfl (fun h => h) (fun _ h => h) (fun _ => hown) rfl (by simp)
       · subst hp
-        exact inv_local hi e { s.ents e with exp := Exp.cbDone } s.conns rfl rfl rfl (fun h => h) (fun _ h => h) (fun _ => hown)
+        exact inv_local hi e { s.ents e with exp := Exp.cbDone } s.conns rfl rfl rfl (fun h => h) (fun _ h => h) (fun _ => hown) rfl (by simp)
 
 theorem inv_init (cfg : Cfg) : Inv cfg init := by
   constructor
@@ -1077,6 +1290,10 @@ theorem inv_init (cfg : Cfg) : Inv cfg init := by
     · intro _ k l h; cases h
     · intro _; exact ⟨rfl, fun _ => rfl⟩
   · exact ⟨List.nodup_nil, fun e h => by cases h⟩
+  · intro _
+    constructor
+    · intro e h; exact absurd h (Nat.not_lt_zero _)
+    · intro e1 e2 h; exact absurd h (Nat.not_lt_zero _)
 
 /-- every operation and event preserves the invariant, and none panics -/
 theorem inv_step {cfg : Cfg} {s : State} (hi : Inv cfg s) (op : Op) :
@@ -1099,16 +1316,31 @@ theorem inv_step {cfg : Cfg} {s : State} (hi : Inv cfg s) (op : Op) :
     · next h =>
       refine ⟨?_, by simp, by simp⟩
       dsimp only
-      refine inv_local hi e _ s.conns ?_ ?_ ?_ ?_ (fun _ h => h) ?_
+      have hlk : e ∈ s.order.items := by
+        have ho := hi.owned e h.1
+        unfold Owned OwnedW CachedW HandedW PoolClosedW DroppedW CallbackW at ho
+        have hx := h.2
+        rcases ho with g | g | g | g | g
+        · exact g.1
+        · rcases g.2.1 with g1 | g1 <;> rw [g1] at hx <;> cases hx
+        · rcases g.2.1 with g1 | g1 <;> rw [g1] at hx <;> cases hx
+        · rcases g.2.1 with g1 | g1 <;> rw [g1] at hx <;> cases hx
+        · rcases g.1 with g1 | g1 | g1
+          · rw [g1] at hx; cases hx
+          · rw [g1.1] at hx; cases hx
+          · rw [g1.1] at hx; cases hx
+      refine inv_local hi e _ s.conns ?_ ?_ ?_ ?_ (fun _ h => h) ?_ ?_ ?_
       · rfl
       · rfl
       · rfl
       · exact fun h => h
-      intro hlt
-      have ho := hi.owned e hlt
-      unfold Owned at ho
-      unfold OwnedW CachedW HandedW PoolClosedW DroppedW CallbackW at *
-      simp_all
+      · intro hlt
+        have ho := hi.owned e hlt
+        unfold Owned at ho
+        unfold OwnedW CachedW HandedW PoolClosedW DroppedW CallbackW at *
+        simp_all
+      · rfl
+      · exact fun _ => .inr hlk
     · exact ⟨hi, by simp, by simp⟩
   | cbClose e =>
     simp only [step]
@@ -1116,7 +1348,7 @@ theorem inv_step {cfg : Cfg} {s : State} (hi : Inv cfg s) (op : Op) :
     · next h =>
       refine ⟨?_, by simp, by simp⟩
       dsimp only
-      refine inv_local hi e _ _ ?_ ?_ ?_ ?_ ?_ ?_
+      refine inv_local hi e _ _ ?_ ?_ ?_ ?_ ?_ ?_ ?_ ?_
       · rfl
       · rfl
       · rfl
@@ -1127,6 +1359,8 @@ theorem inv_step {cfg : Cfg} {s : State} (hi : Inv cfg s) (op : Op) :
         unfold Owned at ho
         unfold OwnedW CachedW HandedW PoolClosedW DroppedW CallbackW at *
         simp_all
+      · rfl
+      · intro hx; cases hx
     · exact ⟨hi, by simp, by simp⟩
   | cbRemove e =>
     simp only [step]
@@ -1136,17 +1370,17 @@ theorem inv_step {cfg : Cfg} {s : State} (hi : Inv cfg s) (op : Op) :
   | envClose v =>
     refine ⟨?_, by simp [step], by simp [step]⟩
     simp only [step]
-    apply inv_conns hi
+    refine inv_conns hi _ s.held s.proper ?_ (fun _ h => h) (fun h => h)
     intro v' hv'; simp only [upd_apply]; split <;> simp_all
   | block v =>
     refine ⟨?_, by simp [step], by simp [step]⟩
     simp only [step]
-    apply inv_conns hi
+    refine inv_conns hi _ s.held s.proper ?_ (fun _ h => h) (fun h => h)
     intro v' hv'; simp only [upd_apply]; split <;> simp_all
   | unblock v =>
     refine ⟨?_, by simp [step], by simp [step]⟩
     simp only [step]
-    apply inv_conns hi
+    refine inv_conns hi _ s.held s.proper ?_ (fun _ h => h) (fun h => h)
     intro v' hv'; simp only [upd_apply]; split <;> simp_all
 
 theorem inv_run {cfg : Cfg} : ∀ (ops : List Op) (s : State), Inv cfg s → Inv cfg (run cfg s ops)
@@ -1195,14 +1429,14 @@ theorem handouts_capLoop (cfg : Cfg) (k : Nat) : ∀ n s, (capLoop cfg k n s).1.
 
 theorem handouts_put (cfg : Cfg) (s : State) (k v : Nat) : (put cfg s k v).1.handouts = s.handouts := by
   unfold put
+  dsimp only
   split
   · rfl
   · split
     · rfl
-    · dsimp only
-      have h0 : (match s.locals k with
-          | none => { s with locals := upd s.locals k (some {}) }
-          | some _ => s).handouts = s.handouts := by split <;> rfl
+    · have h0 : (match s.locals k with
+          | none => ({ s with locals := upd s.locals k (some {}), proper := s.proper && s.held v } : State)
+          | some _ => { s with proper := s.proper && s.held v }).handouts = s.handouts := by split <;> rfl
       split
       · next s1 heq1 =>
         have h1 : s1.handouts = _ := (congrArg (fun r : State × Status => r.1.handouts) heq1).symm.trans (handouts_keyLoop cfg k _ _)
